@@ -286,6 +286,12 @@ def build_obj(spec, lsb0: bool, made: list):
         x = cls(bin=''.join(ch + '1' for ch in bits))[::2]
     elif r == 'copy_from':
         x = cls(CLASSES[a[0]](bin=bits))
+    elif r in ('pickle', 'deepcopy'):
+        import copy
+        import pickle
+        pre = filler(3)
+        src = cls(bin=(bits + pre) if lsb0 else (pre + bits))[3:] if L % 2 else cls(bin=bits)      # odd lengths: a slice of a longer store
+        x = pickle.loads(pickle.dumps(src)) if r == 'pickle' else copy.deepcopy(src)
     elif r == 'concat':
         k = min(a[0], L)
         x = cls(bin=bits[:k]) + CLASSES[a[1]](bin=bits[k:])
@@ -420,7 +426,7 @@ def build_file(cls, r, bits, a, made):
 def pick_route(rng, clsname, bits, lsb0, short_ok=False):
     L = len(bits)
     c = ['bin', 'bin', 'token_bin', 'list', 'tuple', 'gen', 'truthy', 'truthy_iter', 'bitarray_auto', 'bitarray_little_auto', 'frozenbitarray_auto',
-         'slice', 'slice', 'copy_from', 'rhs:str_sub', 'rhs:str_enum', 'rhs:list_sub', 'rhs:tuple_sub']
+         'slice', 'slice', 'copy_from', 'pickle', 'deepcopy', 'rhs:str_sub', 'rhs:str_enum', 'rhs:list_sub', 'rhs:tuple_sub']
     if L % 4 == 0:
         c += ['hex'] + (['token_hex'] if L else [])
     if L % 3 == 0:
